@@ -32,7 +32,8 @@ EXPLANATION = (
     'outside options.py); R5 the decision tables of the validate_value family equal the reference conditions on every world '
     'of their atoms; R6 DEFAULT_DEPENDENTS equals the documented buildtype table, the expansion runs exactly when the value '
     'changed to a non-custom buildtype and the command line puts buildtype first; R7 the prefix-dependent directory defaults '
-    '(hard reset, reset on prefix change, initial default) follow the reference tables. '
+    '(hard reset, reset on prefix change, initial default) follow the reference tables; R8 an option is linked to a parent (and so may report the parent\'s value) only under an exact '
+    'class identity test, because the option classes subclass one another, and .yielding is only ever False or "parent linked". '
     'Does NOT decide which value wins for concrete option sets (run-time), the directory values for concrete prefixes, '
     'per-machine canonicalisation for concrete cross files, nor the behaviour of set_user_option for unknown/pending options.')
 ASSUMPTIONS = [
@@ -1164,6 +1165,179 @@ def fold_dir_table(ctx: RuleCtx, mod: T.Any) -> T.Dict[str, T.Dict[str, str]]:
     return out
 
 
+# ---------------------------------------------------------------------------
+# R8  a yielding option is linked only to a parent of exactly its own class (K7 + K1 + K2)
+def _option_lattice(ctx: RuleCtx, mod: T.Any) -> T.List[T.Tuple[str, str]]:
+    """(subclass, superclass) pairs among the option classes that can be instantiated"""
+    fam = c07_scan.local_subclasses(mod, 'UserOption')
+    concrete = set()
+    alias: T.Set[str] = set()
+    for n in ast.walk(mod.tree):
+        if isinstance(n, ast.AnnAssign) and isinstance(n.target, ast.Name) and n.target.id == 'AnyOptionType' and n.value is not None:
+            alias = c07_scan.idents(n.value) & fam
+    for name in fam:
+        r = ctx.repo.find_method(mod, mod.cls(name), 'validate_value')
+        if r is not None and r[1].name != 'UserOption' and (not alias or name in alias):
+            concrete.add(name)
+    pairs = []
+    for a in sorted(concrete):
+        for _, c in ctx.repo.mro(mod, mod.cls(a))[1:]:
+            if c.name in concrete:
+                pairs.append((a, c.name))
+    return pairs
+
+
+def _type_of_text(e: str) -> T.Optional[str]:
+    """`type(X)` / `X.__class__` -> X"""
+    try:
+        n = ast.parse(e, mode='eval').body
+    except SyntaxError:
+        return None
+    if isinstance(n, ast.Call) and isinstance(n.func, ast.Name) and n.func.id == 'type' and len(n.args) == 1 and not n.keywords:
+        return norm(n.args[0])
+    if isinstance(n, ast.Attribute) and n.attr == '__class__':
+        return norm(n.value)
+    return None
+
+
+def _type_guard(a: Atom, v: bool, o: str, p: str) -> T.Optional[str]:
+    """'exact' / 'inexact' when (atom, polarity) tests the class of o against the class of p, else None"""
+    if (a.kind == 'is' or (a.kind == 'cmp' and a.args[0] == 'eq')) and v:
+        xs = a.args[-2:] if a.kind == 'cmp' else a.args
+        if {_type_of_text(xs[0]), _type_of_text(xs[1])} == {o, p}:
+            return 'exact'
+    if a.kind == 'isinstance' and v and len(a.args[1]) == 1:
+        subj, cls = a.args[0], _type_of_text(a.args[1][0])
+        if {subj, cls} == {o, p}:
+            return 'inexact'
+    if a.kind == 'truth' and v:
+        try:
+            n = ast.parse(a.args[0], mode='eval').body
+        except SyntaxError:
+            return None
+        if isinstance(n, ast.Call) and isinstance(n.func, ast.Name) and n.func.id == 'issubclass' and len(n.args) == 2:
+            if {_type_of_text(norm(n.args[0])), _type_of_text(norm(n.args[1]))} == {o, p}:
+                return 'inexact'
+    return None
+
+
+R8_EXAMPLE = '''
+class OptionStore:
+    def link(self, key, valobj):
+        parent_option = self.options[key.as_root()]
+        if isinstance(valobj, type(parent_option)):
+            valobj.parent = parent_option
+        valobj.yielding = valobj.parent is not None
+'''
+
+
+def _parent_links(ctx: RuleCtx, mod: T.Any, lattice: T.List[T.Tuple[str, str]], report: bool) -> T.Tuple[int, int]:
+    """every store of a non-None value into `<option>.parent` is guarded by an exact class identity test"""
+    n = bad = 0
+    for q, f in mod.funcs().items():
+        if not any(isinstance(x, ast.Attribute) and isinstance(x.ctx, ast.Store) and x.attr == 'parent' for x in walk_no_nested(f)):
+            continue
+        for r in S.Sym(f).rows():
+            for fx in r.fx:
+                if fx.kind not in ('store', 'augstore') or not (isinstance(fx.node[0], ast.Attribute) and fx.node[0].attr == 'parent'):
+                    continue
+                val = fx.node[-1]
+                if fx.kind == 'store' and isinstance(val, ast.Constant) and val.value is None:
+                    continue
+                o, p = norm(fx.node[0].value), norm(val)
+                n += 1
+                guards = [g for g in (_type_guard(a, v, o, p) for a, v in r.conds.items()) if g]
+                if 'exact' in guards:
+                    if report:
+                        ctx.ok(f'{q}: {o}.parent := {short(p, 50)} only when type({short(p, 30)}) is type({o})')
+                    continue
+                if 'inexact' in guards:
+                    if not lattice:
+                        if report:
+                            ctx.ok(f'{q}: {o}.parent linked under an isinstance test; the option classes do not subclass one another')
+                        continue
+                    bad += 1
+                    if report:
+                        a, b = lattice[0]
+                        ctx.violation(mod, q, fx.src, f'{fx.text} is guarded by an isinstance/issubclass test only; the option classes form a lattice ({"; ".join(f"{x} < {y}" for x, y in lattice)}), '
+                                      f'so e.g. a {a} is linked to a {b} parent and reports the parent value, which need not satisfy its own choices; reference: type(parent) is type(option)', fx.src, path=repr(r))
+                    continue
+                if any('type(' in repr(a) or '__class__' in repr(a) or a.kind == 'isinstance' for a in r.conds):
+                    raise Undecided(f'{q}: {fx.text}: class test of unknown form on the path {r!r}')
+                bad += 1
+                if report:
+                    ctx.violation(mod, q, fx.src, f'{fx.text}: the parent is linked without testing that it has the class of the option; a yielding option would report a value its own validator never saw', fx.src, path=repr(r))
+    return n, bad
+
+
+def r8(ctx: RuleCtx) -> None:
+    mod = ctx.repo.module(OPT)
+    lattice = _option_lattice(ctx, mod)
+    ctx.note(f'subclass pairs among instantiable option classes: {lattice}')
+    # built-in positive example: an isinstance guard must be recognised as inexact
+    from ..core import Module
+    ex = Module(ctx.repo, '<built-in example>', R8_EXAMPLE)
+    n0, bad0 = _parent_links(ctx, ex, lattice or [('UserFeatureOption', 'UserComboOption')], report=False)
+    if (n0, bad0) != (1, 1):
+        raise Undecided(f'built-in example of an isinstance-guarded parent link was not recognised ({n0}, {bad0})')
+    n, _ = _parent_links(ctx, mod, lattice, report=True)
+    ctx.floor('stores linking an option to a parent', n, 1)
+    # yielding is only ever False or "a parent is linked" (so that lookup never dereferences a foreign/None parent)
+    ny = 0
+    for q, f in mod.funcs().items():
+        if not any(isinstance(x, ast.Attribute) and isinstance(x.ctx, ast.Store) and x.attr == 'yielding' for x in walk_no_nested(f)):
+            continue
+        rows = _set_option(ctx).head + _set_option(ctx).tail if q == 'OptionStore.set_option' else S.Sym(f).rows()
+        seen: T.Set[str] = set()
+        for r in rows:
+            for fx in r.fx:
+                if fx.kind not in ('store', 'augstore') or not (isinstance(fx.node[0], ast.Attribute) and fx.node[0].attr == 'yielding'):
+                    continue
+                if fx.text in seen:
+                    continue
+                seen.add(fx.text)
+                ny += 1
+                o = norm(fx.node[0].value)
+                v = fx.node[-1]
+                okv = fx.kind == 'store' and ((isinstance(v, ast.Constant) and v.value is False) or norm(v) in (f'{o}.parent is not None', f'bool({o}.parent)', f'None is not {o}.parent'))
+                if okv:
+                    ctx.ok(f'{q}: {fx.text}')
+                elif fx.kind == 'store' and isinstance(v, ast.Constant):
+                    ctx.violation(mod, q, fx.src, f'{fx.text}: yielding is switched on without a linked parent of the same class', fx.src)
+                else:
+                    raise Undecided(f'{q}: {fx.text}: value of unknown form stored into .yielding')
+    ctx.floor('stores into .yielding', ny, 2)
+    # registration: the declared yield flag is normalised before the option becomes visible
+    qn = 'OptionStore.add_project_option'
+    fn = mod.func(qn)
+    nreg = 0
+    for r in S.Sym(fn).rows():
+        texts = [f.text for f in r.fx if f.kind in ('store', 'call')]
+        reg = [i for i, t in enumerate(texts) if t.startswith('self.options[') and t.endswith(':= ARG2')]
+        if not reg:
+            continue
+        nreg += 1
+        norm_i = [i for i, t in enumerate(texts) if t in ('ARG2.yielding := ARG2.parent is not None', 'ARG2.yielding := bool(ARG2.parent)')]
+        if not norm_i or norm_i[0] > reg[0]:
+            ctx.violation(mod, qn, 'valobj.yielding = valobj.parent is not None', 'a project option is registered on a path that does not first reduce its declared yield flag to "a same-class parent is linked"', fn, path=repr(r))
+            break
+    else:
+        ctx.ok(f'{qn}: the yield flag is reduced to "parent linked" before the option is registered ({nreg} paths)')
+    ctx.floor('registration paths', nreg, 1)
+    # nobody outside options.py switches yielding
+    k = 0
+    for rel in ctx.repo.py_files('mesonbuild'):
+        if rel == OPT or 'yielding' not in ctx.repo.read(rel):
+            continue
+        m = ctx.repo.module(rel)
+        k += 1
+        for q, f in m.funcs().items():
+            for x in walk_no_nested(f):
+                if isinstance(x, ast.Attribute) and isinstance(x.ctx, ast.Store) and x.attr == 'yielding':
+                    ctx.violation(m, q, f'{norm(x)} = ...', 'the yield flag of an option is written outside options.py, bypassing the same-class parent link', x)
+    ctx.ok(f'no store into .yielding outside options.py ({k} files mention it)', nontrivial=False)
+
+
 RULES = [
     Rule('C07.R1', 'top-level precedence: defaults < machine file < command line (values and prefix)', r1),
     Rule('C07.R2', 'subproject merge: write events in the documented eight-step order, augments kept', r2),
@@ -1172,4 +1346,5 @@ RULES = [
     Rule('C07.R5', 'validate_value decision tables', r5),
     Rule('C07.R6', 'buildtype expansion table, guard and command-line order', r6),
     Rule('C07.R7', 'prefix-dependent directory defaults', r7),
+    Rule('C07.R8', 'a yielding option is linked only to a parent of exactly its own class', r8),
 ]
